@@ -40,12 +40,17 @@ def check_cfg(ctx, fx, cfg):
         rs = roots(gb, t["args"][2]) if len(t["args"]) > 2 else set()
         ok = bool(rs) and all(r.kind == "arg" for r in rs) and sty in ("S", "T")
         ctx.require(ok, "R13.6", "stream-handed-over-unwrapped:%s@%s" % (g["def"], cfg), "the stream given to the loop is not the caller's own stream parameter (type %s, roots %s)" % (sty[:60], sorted(map(str, rs))), fn=g["def"], site=t["l"])
-    ctx.floor("R13.6", "callers of the stream-loop constructor (%s)" % cfg, n_sites, 3)
+    # counted: Environment::launch_on_stream + the two builder / spawner terminals; the latter are gated on a runtime feature
+    ctx.floor("R13.6", "callers of the stream-loop constructor (%s)" % cfg, n_sites, 1 if cfg == "bare" else 3)
     # R13.7 closed list of hand-written poll functions in the crate (a poll that returns Pending without registering a
     # waker stalls the loop): today only `impl Future for Addr`
     polls = sorted((i.get("trait"), i["self"]) for i in fx.d["impls"] if i.get("trait") in ("futures_core::stream::Stream", "core::future::future::Future", "futures_core::future::FusedFuture", "futures_core::stream::FusedStream", "futures_sink::Sink"))
     ok = polls == [("core::future::future::Future", "addr::Addr<A>")]
     ctx.require(ok, "R13.7", "hand-written-polls@" + cfg, "a new hand-written Future / Stream implementation in the crate: its Pending paths must register a waker (not decidable here) — found %s" % polls, site=[i["loc"] for i in fx.d["impls"] if i.get("trait") in ("futures_core::stream::Stream", "futures_core::future::FusedFuture", "futures_core::stream::FusedStream")][:1] or None, detail=polls)
+    # R13.8 messages sent to the address keep their own order: one queue per mailbox, every submission the same kind of
+    # send into it, the receiver read only by the dequeue (shared with C01)
+    from props.c01 import check_single_queue
+    check_single_queue(ctx, fx, cfg, "R13.8", "R13.8")
     res = run_loops(ctx, fx, "R13.1", {"L1", "L2", "L3", "L4", "L5", "L6", "L7", "L8", "L9", "L11", "L13"}, kinds=("stream",))
     for f, kind, b, n in res:
         if kind != "stream":
